@@ -110,17 +110,19 @@ Definition split_last (l : list seg) : option (list seg * seg) :=
   match rev l with [] => None | s :: ri => Some (rev ri, s) end.
 
 (* ------------------------------------------------------------------ the three resolvers *)
-(* src/cli/commands.rs, inline in collect_modules: base = directory of the ENTRY file as spelled *)
+(* src/cli/commands.rs, inline in collect_modules: base = ABSOLUTE directory of the ENTRY file
+   (whatever way the entry was spelled: [rl cwd ab b]) *)
 Definition cli_cands (d : dir) (s : seg) : list path := [P d s Incn; P d s Incan].
 Definition cli_resolve (fs : fsys) (cwd : dir) (ab : bool) (b : list seg) (i : import)
   : option (path * list seg) :=
   if skip i then None else
-  let t := target_dir fs (rl cwd ab) i b in
+  (* the spelled base is made absolute first (frontend::module::absolute_path) *)
+  let t := target_dir fs (fun d => d) i (rl cwd ab b) in
   let ms := msegs i in
   match split_last ms with
   | None => None
   | Some (ini, s) =>
-      match find (file_exists fs) (cli_cands (rl cwd ab (t ++ ini)) s) with
+      match find (file_exists fs) (cli_cands (t ++ ini) s) with
       | Some p => Some (p, ms)
       | None => None
       end
@@ -143,12 +145,12 @@ Definition mr_cands (d : dir) (s : seg) (dm : dir) : list path :=
 Definition mr_resolve (fs : fsys) (cwd : dir) (ab : bool) (b : list seg) (i : import)
   : option (path * list seg) :=
   if skip i then None else
-  let t := target_dir fs (rl cwd ab) i b in
+  let t := target_dir fs (fun d => d) i (rl cwd ab b) in
   let ms := msegs i in
   match split_last ms with
   | None => None
   | Some (ini, s) =>
-      match find (file_exists fs) (mr_cands (rl cwd ab (t ++ ini)) s (rl cwd ab (t ++ ms))) with
+      match find (file_exists fs) (mr_cands (t ++ ini) s (t ++ ms)) with
       | Some p => Some (p, ms)
       | None => None
       end
@@ -181,29 +183,20 @@ Definition k_modonly (fs : fsys) (b : dir) (i : import) : bool :=
       (file_exists fs (P (t ++ isegs i) MODN Incn) || file_exists fs (P (t ++ isegs i) MODN Incan))
   end.
 
-(* the entry was spelled relative to the working directory and the import climbs above the
-   spelled part (`..` beyond it, or `crate` with no Cargo.toml/src at or below the cwd) *)
-Fixpoint marker_on_walk (fs : fsys) (rlz : list seg -> dir) (r : list seg) : bool :=
-  marker fs (rlz (rev r)) || match r with [] => false | _ :: r' => marker_on_walk fs rlz r' end.
-Definition k_underflow (fs : fsys) (cwd : dir) (ab : bool) (b : list seg) (i : import) : bool :=
-  negb ab &&
-  (if iabs i then negb (marker_on_walk fs (rl cwd ab) (rev b))
-   else (length b <? ilevels i)%nat).
-
 (* the import stands in a file that is not in the entry's directory *)
 Definition k_nested (entry_dir importer_dir : dir) : bool := negb (dir_eqb entry_dir importer_dir).
 
 (* ModuleResolver only: the module exists as .incan only / as __init__.incn *)
 Definition k_mr_only (fs : fsys) (cwd : dir) (ab : bool) (b : list seg) (i : import) : bool :=
   negb (skip i) &&
-  let t := target_dir fs (rl cwd ab) i b in
+  let t := target_dir fs (fun d => d) i (rl cwd ab b) in
   match split_last (msegs i) with
   | None => false
   | Some (ini, s) =>
-      negb (file_exists fs (P (rl cwd ab (t ++ ini)) s Incn)) &&
-      (file_exists fs (P (rl cwd ab (t ++ ini)) s Incan) ||
-       file_exists fs (P (rl cwd ab (t ++ msegs i)) MODN Incn) ||
-       file_exists fs (P (rl cwd ab (t ++ msegs i)) INIT Incn))
+      negb (file_exists fs (P (t ++ ini) s Incn)) &&
+      (file_exists fs (P (t ++ ini) s Incan) ||
+       file_exists fs (P (t ++ msegs i) MODN Incn) ||
+       file_exists fs (P (t ++ msegs i) INIT Incn))
   end.
 
 (* ------------------------------------------------------------------ work lists *)
@@ -271,7 +264,7 @@ Definition mr_collect (fuel : nat) (fs : fsys) (imps : path -> list import)
   end.
 
 (* lsp::backend::collect_dependency_modules: stack of (file, base dir for its imports);
-   the `seen` test happens at pop time only; the entry itself is NOT in `seen`. *)
+   the `seen` test happens at pop time only; `seen` starts with the entry itself. *)
 Definition litem := (path * dir)%type.
 Fixpoint ldrop_done (seen : list path) (stack : list litem) : list litem :=
   match stack with
@@ -300,7 +293,7 @@ Fixpoint lsp_loop (fuel : nat) (fs : fsys) (imps : path -> list import)
 (* result: the dependency files in processing order (module name = file stem) *)
 Definition lsp_collect (fuel : nat) (fs : fsys) (imps : path -> list import) (entry : path)
   : outcome (list path) :=
-  lsp_loop fuel fs imps [] [] (rev (lpushes fs (pdir entry) (imps entry))).
+  lsp_loop fuel fs imps [entry] [] (rev (lpushes fs (pdir entry) (imps entry))).
 
 (* frontend::module::ModuleCollector: recursive load with `loaded` and `loading` sets; all imports
    are resolved against the entry's directory.  Fuel = recursion depth. *)
@@ -465,7 +458,7 @@ Definition run_resolve (fs : fsys) (cwd : dir) (ab : bool) (b : list seg) (imp_d
     render_opt (rip fs imp_dir i),
     render_opt (option_map fst (mr_resolve fs cwd ab b i)),
     render_opt (spec_resolve fs imp_dir i)),
-   [b2z (k_multi i); b2z (k_modonly fs imp_dir i); b2z (k_underflow fs cwd ab b i);
+   [b2z (k_multi i); b2z (k_modonly fs imp_dir i);
     b2z (k_nested (rl cwd ab b) imp_dir); b2z (k_mr_only fs cwd ab b i)]).
 
 (* file contents as an association list *)
@@ -477,7 +470,7 @@ Fixpoint imps_of (tbl : list (path * list import)) (p : path) : list import :=
 
 (* does some import of a loaded file fall in a class in which CLI and LSP are known to differ? *)
 Definition import_known (fs : fsys) (cwd : dir) (ab : bool) (b : list seg) (p : path) (i : import) : bool :=
-  k_multi i || k_modonly fs (pdir p) i || k_underflow fs cwd ab b i || k_nested (rl cwd ab b) (pdir p).
+  k_multi i || k_modonly fs (pdir p) i || k_nested (rl cwd ab b) (pdir p).
 Definition any_known (fs : fsys) (imps : path -> list import) (cwd : dir) (ab : bool) (b : list seg)
            (loaded : list path) : bool :=
   existsb (fun p => existsb (import_known fs cwd ab b p) (imps p)) loaded.
@@ -495,8 +488,7 @@ Definition run_collect (fs : fsys) (tbl : list (path * list import))
    render_items (mr_collect (fuel_of fs) fs (imps_of tbl) cwd ab b stem e),
    render_paths l,
    render_paths (mc_collect (fuel_of fs) fs (imps_of tbl) entry),
-   any_known fs (imps_of tbl) cwd ab b (entry :: loaded_of_items c ++ loaded_of_paths l)
-   || mem entry (loaded_of_paths l)).
+   any_known fs (imps_of tbl) cwd ab b (entry :: loaded_of_items c ++ loaded_of_paths l)).
 
 Definition run_check (deps : list (list seg * list decl)) (own : list decl)
            (imports : list vimport) (uses : list use) : list (Z * Z) :=
